@@ -801,8 +801,12 @@ VacReport == PrintT("VACUITY|" \o ToJson([i \in DOMAIN AnteNames |-> <<AnteNames
 StoreOfK(objs) == [k \in { ObjKey(objs[i]) : i \in DOMAIN objs } |->
                      objs[CHOOSE i \in DOMAIN objs : ObjKey(objs[i]) = k]]
 \* responses whose children would not satisfy the selector (label invariant)
-RespBad(c, resp) == ~IsDecorator /\ ~GenSel /\ c.selOK
-                    /\ \E i \in DOMAIN resp.children : ~Matches(c.sel, resp.children[i].labels)
+\* (with a generated selector the controller supplies the controller-uid label itself; a desired child that ALREADY carries
+\* that label with another value does not satisfy the selector {controller-uid = parent uid})
+RespBad(c, resp) == /\ ~IsDecorator
+                    /\ \/ (~GenSel /\ c.selOK /\ \E i \in DOMAIN resp.children : ~Matches(c.sel, resp.children[i].labels))
+                       \/ (GenSel /\ \E i \in DOMAIN resp.children : "controller-uid" \in DOMAIN resp.children[i].labels
+                                                                       /\ resp.children[i].labels["controller-uid"] # c.parent.uid)
 
 Put(e) == IF e.post = e.pre THEN store ELSE (Key(e) :> e.post) @@ store
 
